@@ -33,20 +33,26 @@ def node_line(rng, ny, half):
     span = rng.uniform(4, 30)
     if half == "full":
         nh = (ny - 1) // 2
-        e = np.sort(rng.uniform(0.05, 1.0, nh))
         e = np.cumsum(0.3 + rng.random(nh))
         e = e / e[-1]
-        y = np.concatenate([-e[::-1], [0.0], e]) * span / 2
+        if rng.random() < 0.5:
+            y = np.concatenate([-e[::-1], [0.0], e]) * span / 2
+        else:
+            # not mirror symmetric: unequal halves and a lateral offset; the clamped node is still the middle node
+            e2 = np.cumsum(0.3 + rng.random(nh))
+            e2 = e2 / e2[-1] * rng.uniform(0.3, 1.0)
+            y = np.concatenate([-e[::-1], [0.0], e2]) * span / 2 + rng.uniform(-1.0, 1.0) * span
     else:
         e = np.cumsum(0.3 + rng.random(ny - 1))
         e = np.concatenate([[0.0], e / e[-1]])
         y = -(e[::-1]) * span / 2
     sweep = np.tan(np.deg2rad(rng.uniform(-30, 40)))
     dih = np.tan(np.deg2rad(rng.uniform(-10, 20)))
-    x = sweep * np.abs(y) + rng.normal(0, 0.02 * span, ny) * (rng.random() < 0.5)
-    z = dih * np.abs(y) + rng.normal(0, 0.01 * span, ny) * (rng.random() < 0.5)
+    yc = y - y[(ny - 1) // 2] if half == "full" else y
+    x = sweep * np.abs(yc) + rng.normal(0, 0.02 * span, ny) * (rng.random() < 0.5)
+    z = dih * np.abs(yc) + rng.normal(0, 0.01 * span, ny) * (rng.random() < 0.5)
     if rng.random() < 0.3:  # a kink (winglet-like) on the outer part
-        z = z + 0.3 * np.maximum(np.abs(y) - 0.35 * span, 0.0)
+        z = z + 0.3 * np.maximum(np.abs(yc) - 0.35 * span, 0.0)
     nodes = np.stack([x, y, z], axis=1)
     d = np.diff(nodes, axis=0)
     cosx = np.abs(d[:, 0]) / np.linalg.norm(d, axis=1)
@@ -123,7 +129,13 @@ def solve_oas(p, props, loads):
     return np.array(p.get_val("disp")).copy()
 
 
-def scaled_close(o, fam, u, uref, rtol, **kw):
+def scaled_close(o, fam, u, uref, rtol, what=None, **kw):
+    if what is not None:
+        kw["what"] = what
+    return _scaled_close(o, fam, u, uref, rtol, **kw)
+
+
+def _scaled_close(o, fam, u, uref, rtol, **kw):
     """translations and rotations compared on their own scales"""
     o.close(fam, u[:, :3], uref[:, :3], rtol=rtol, scale=max(np.abs(uref[:, :3]).max(), 1e-300), **kw)
     o.close(fam, u[:, 3:], uref[:, 3:], rtol=rtol, scale=max(np.abs(uref[:, 3:]).max(), 1e-300), **kw)
@@ -172,6 +184,20 @@ def run_beam(c, o):
     u2 = solve_oas(p, props, f2)
     u12 = solve_oas(p, props, a * f1 + b * f2)
     scaled_close(o, "beam/linearity", u12, a * u1 + b * u2, rt)
+    # loads of very different magnitude on different DOFs (all far above the 1e-6 N zeroing threshold): the right-hand
+    # side handed to the solver must carry every one of them unchanged, and the small ones must still produce their response
+    fbig = np.zeros((ny, 6))
+    fsmall = np.zeros((ny, 6))
+    tipn = 0 if sym else ny - 1
+    fbig[tipn, 0] = 2.5e5
+    fsmall[tipn, 2] = 0.1
+    fsmall[tipn, 4] = 0.05
+    ub = solve_oas(p, props, fbig + fsmall)
+    rhs = np.array(p.get_val("states.forces")).reshape(-1)[: 6 * ny]
+    o.close("beam/rhs_carries_all_loads", rhs, (fbig + fsmall).reshape(-1), rtol=0, atol=0, what="loads >= 0.05 N must reach the solver unchanged")
+    us = solve_oas(p, props, fsmall)
+    ubb = solve_oas(p, props, fbig)
+    scaled_close(o, "beam/small_load_not_lost", ub - ubb, us, max(0.05, rt * 1e7), what="response to a 0.1 N load in the presence of a 2.5e5 N load")
     # Maxwell-Betti on a random subset of free DOFs
     dofs = rng.choice(free, size=min(6, len(free)), replace=False)
     F = np.zeros((len(dofs), len(dofs)))
